@@ -7,7 +7,8 @@
      PInternal an index out of range / slice bounds error in the Go code (recover() would turn it into
               an unpositioned "runtime error"),
      PDeep    recursion deeper than `depth` - in Go "fatal error: stack overflow", which recover()
-              cannot catch: the process dies.
+              cannot catch: the process dies.  (In the parser the model spends one unit of depth per
+              nested production AND per loop iteration, so its depth is an upper bound of Go's.)
    isld is unicode.IsLetter||IsDigit (arbitrary).  Modelled productions (ALL of grammar_parse.go, as a
    recogniser): file input, statement (pass/continue/break/def/for/if/return/raise/assert/ident
    statement/expression statement), statements block, return, funcdef, argument (types, aliases,
@@ -17,8 +18,8 @@
    (unpack, index assign, property, call, assign, augmented assign), ident expression, call (named
    arguments via AssignFollows, repeated names), list / dict (comprehensions), slice, comprehension,
    lambda, f-string splitting (findBrace).  The lexer is modelled completely. *)
-From Coq Require Import String.
-From PlzV Require Import Base.Harness Model.C19 Proof.C19.
+From Coq Require Import String Sorted.
+From PlzV Require Import Base.Harness Model.C19 Proof.C19 Proof.C19_Parser.
 
 (* The property at full strength: with SOME finite stack, every byte string either parses or is
    rejected with a positioned error - never an internal error, never a crash. *)
@@ -40,19 +41,53 @@ Theorem C19_lex_total :
 Proof. exact lex_total. Qed.
 Print Assumptions C19_lex_total.
 
+(* The postcondition of the lexer on the tokens it emits, for ALL byte strings, letter predicates and
+   depths (also on the tokens emitted before a positioned error): a String token is a double quote, any
+   bytes, a double quote, preceded by f for an f-string (so tok.Value[0], tok.Value[2:len-1] and
+   String[1:len-1] are in range); an Int token is not empty; an EOF token has no value; positions never
+   decrease; a complete stream ends with the EOF token. *)
+Definition C19_lex_tokens_statement : Prop :=
+  forall (isld : N -> bool) (bs : str) (depth : nat),
+    Forall WfTok (toks_of (lex_all isld depth bs))
+    /\ StronglySorted (fun a c => tpos a <= tpos c) (toks_of (lex_all isld depth bs))
+    /\ (forall toks, lex_all isld depth bs = LexOk toks -> exists pre t, toks = pre ++ [t] /\ ttype t = TEOF).
+
+Theorem C19_lex_tokens : C19_lex_tokens_statement.
+Proof. exact (fun isld bs depth => conj (lex_all_wf isld depth bs) (conj (lex_all_asc isld depth bs) (lex_all_eof isld depth bs))). Qed.
+Print Assumptions C19_lex_tokens.
+
+(* The parser (grammar_parse.go, EVERY production listed above, on top of the complete lexer), for ALL
+   byte strings and letter predicates: with recursion depth 19 * length + 75 (linear) parseFileInput
+   yields a program or a positioned syntax error - never PInternal (no index / slice expression of
+   concatStrings, parseFString / findBrace, tok.Value[0], AssignFollows or of the lexer called past
+   the first sentinel is out of range), never PDeep.  Proved by an invariant between productions
+   (Proof.C19_Parser.PInv: lexer invariant + the lookahead is well-formed + the lexer is past the data only
+   when the lookahead is EOF), a payload invariant for parseValueExpression (a String value has both
+   quotes) and the progress measure 6 * M + rank (M = the lexer's token measure, rank = number of nested
+   productions that can be entered without taking a token, at most 5). *)
+Theorem C19_parse_safe :
+  forall (isld : N -> bool) (bs : str) (depth : nat),
+    19 * length bs + 75 <= depth -> outcome_ok (parse isld depth bs).
+Proof. exact parse_safe. Qed.
+Print Assumptions C19_parse_safe.
+
 (* PARTIAL: what holds of the code as it is.
    (1) lexer totality within linear recursion depth (as above);
    (2) ParseData's lexer start-up (newLexer) within the same depth yields a token or a positioned error;
-   (3) the defect class is exactly "recursion depth": for every depth some input of length depth+1
-       exceeds it (so no depth limit short of the input length could be proved). *)
+   (3) the lexer's postcondition on tokens;
+   (4) the whole parser is safe within linear depth: a program or a positioned error;
+   (5) the defect class is exactly "recursion depth": for every depth some input of length depth+1
+       exceeds it (so no depth limit short of the input length could be proved; (4) is linear). *)
 Definition C19_partial_statement : Prop :=
   (forall isld bs depth, lex_fuel bs <= depth -> lex_ok (lex_all isld depth bs))
   /\ (forall isld bs depth, lex_fuel bs <= depth ->
         match new_lexer isld (buffer bs) depth with LTok _ _ | LErr _ => True | LInternal | LDeep => False end)
+  /\ C19_lex_tokens_statement
+  /\ (forall isld bs depth, 19 * length bs + 75 <= depth -> outcome_ok (parse isld depth bs))
   /\ (forall isld depth, exists bs, length bs = S depth /\ parse isld depth bs = PDeep).
 
 Theorem C19_partial : C19_partial_statement.
-Proof. exact (conj lex_total (conj new_lexer_total deep_for_every_depth)). Qed.
+Proof. exact (conj lex_total (conj new_lexer_total (conj C19_lex_tokens (conj parse_safe deep_for_every_depth)))). Qed.
 Print Assumptions C19_partial.
 
 (* Non-vacuity: the model lexes and parses real programs, reports positioned errors, and the pre-fix
@@ -65,4 +100,20 @@ Example C19_nonvacuous :
   /\ parse isld 100 (s "x = f""{a""") = PSyn 6
   /\ parse isld 100 (s "x = (") = PSyn 6
   /\ parse isld 3 [13; 13; 13; 13]%N = PDeep.
+Proof. vm_compute. repeat split. Qed.
+
+(* Non-vacuity of C19_parse_safe / C19_lex_tokens: at exactly the depth of the theorem the model parses a
+   program with strings, an f-string with a variable, a call with a named argument and a comprehension,
+   and rejects a cut-short one with a position; the tokens of the first are well-formed (decided here by
+   computation: the stream contains String and Int tokens). *)
+Example C19_parse_safe_nonvacuous :
+  let isld := fun _ : N => false in
+  let src := s "x = [f(a = ""b"" f""{c}d"", e = 12)[1:] for y in z if not y]" in
+  let bad := s "def f(a: str = 'x' 'y'" in
+  (match parse isld (19 * length src + 75) src with POk (VNum k) _ => Some k | _ => None end) = Some 1
+  /\ parse isld (19 * length bad + 75) bad = PSyn 23
+  /\ (match lex_all isld (lex_fuel src) src with
+      | LexOk toks => (length (filter (fun t => (ttype t =? TString)%Z) toks),
+                       length (filter (fun t => (ttype t =? TInt)%Z) toks))
+      | _ => (0, 0) end) = (2, 2).
 Proof. vm_compute. repeat split. Qed.
